@@ -182,6 +182,15 @@ fn check_transition(m: &Metadata, before: &Value, result: &Result<bytes::Bytes, 
                     }
                 }
             }
+            // a segment has exactly one leader over the whole history: the leader recorded for a segment (also while it is the open
+            // one) never changes later - in particular not when the segment is sealed
+            if let Some(leaders) = b["segment_leaders"].as_object() {
+                for (seg, l) in leaders {
+                    if &a["segment_leaders"][seg] != l {
+                        return Err(format!("{t}: leader of segment {seg} changed {} -> {}", l, a["segment_leaders"][seg]));
+                    }
+                }
+            }
             let bc = b["current_segment"].as_u64().unwrap_or(0);
             let ac = a["current_segment"].as_u64().unwrap_or(0);
             if ac < bc {
